@@ -71,6 +71,16 @@ def gen_plan(run_seed, tier, index):
         f['op'] = fr.randrange(n)
         f['x'] = fr.choice([0, 0, 0, 1, 2])
         faults.append(f)
+    if fr.random() < 0.04:
+        # focus: the response of an open with a query result class (rare in
+        # the general mix) is the one that is damaged structurally
+        k = faults[0]['op']
+        ops[k] = {'op': 'OpenQueryInstances', 'a': {
+            'FilterQueryLanguage': 'DMTF:FQL',
+            'FilterQuery': 'SELECT * FROM %s' % model['classes'][0]['name'],
+            'ReturnQueryResultClass': True,
+            'MaxObjectCount': fr.choice([1, 100])}}
+        faults[0] = dict(rf.gen_fault(fr), kind='struct', op=k, x=0)
     return {'check': ID, 'model_seed': mseed, 'default_ns': dn, 'ops': ops,
             'faults': faults, 'ids_seed': fr.getrandbits(32),
             'timeout': r.choice([None, 5, 30]),
@@ -122,6 +132,9 @@ def _pull(field, pred):
                                   isinstance(c[1], str)):
             return False
         if v.eos and c is not None:
+            return False
+        if hasattr(v, 'query_result_class') and not isinstance(
+                v.query_result_class, (CIMClass, type(None))):
             return False
         return pred(getattr(v, field))
     return chk
